@@ -294,6 +294,7 @@ theorem creditFor_cases (ord : List Group → List Group) (w : World) (st : Step
   cases st with
   | setVals v => left; rfl
   | restart => left; rfl
+  | blocks n => left; rfl
   | msg m =>
     cases m with
     | claim cm =>
@@ -322,6 +323,7 @@ theorem step_prophecy_stable (ord : List Group → List Group) (w : World) (st :
   cases st with
   | setVals v => rfl
   | restart => rfl
+  | blocks n => rfl
   | msg m => exact deliver_nonpending_stable ord w.vals w.s m id h
 
 /-- a step that credits for `id` finds the prophecy pending and leaves it SUCCESS -/
